@@ -39,6 +39,17 @@ def gen_case(rng, transport):
         expect.append(("{}", vals, True))
         if rng.random() < 0.6:
             transport = "bridge"      # the bridge process ends by itself when the service hangs up
+    if rng.random() < 0.12 and ops:
+        # pipelined: a sliding window of two calls in flight over methods with distinguishable replies (compared with the model only)
+        wm = []
+        for wi in range(rng.choice([3, 4, 6])):
+            m = iface + b".W%d" % wi
+            secs.append(S.script_text(m, [S.Step("r", "e", val="{77:D%s;}" % str(wi).encode().hex())], False))
+            wm.append(m.hex())
+        if rng.random() < 0.4:
+            # a call under a short deadline, an idle connection until that deadline has passed, then calls under context.Background()
+            return " | ".join(secs + ["transport " + transport] + ["stale " + ",".join(wm[:3])]), ("window", min(3, len(wm)))
+        return " | ".join(secs + ["transport " + transport] + ["window " + ",".join(wm)]), ("window", len(wm))
     return " | ".join(secs + ["transport " + transport] + ops), expect
 
 
@@ -106,6 +117,13 @@ def main(pid, argv):
             ops = ops_s.split(" ; ") if ops_s else []
             log0 = tail[tail.index("log0=[") + 6:tail.index("] log1=")]
             entries = [e for e in log0.split(";") if e]
+            if isinstance(exp, tuple) and exp[0] == "window":
+                # each receive must yield the reply of its own call: replies are never lost, duplicated or handed to another call
+                wgot = ops_s.split("win=")[1].split(" ")[0].split(",") if "win=" in ops_s else []
+                wwant = ["R" + (b'{"w":%d}' % i).hex() for i in range(exp[1])]
+                if wgot != wwant:
+                    bad = "pipelined calls (window of two in flight): the receives yielded %s, the handlers replied %s" % (wgot, wwant)
+                exp = None
             if exp is not None:
                 if len(ops) != len(exp) or len(entries) != len(exp):
                     bad = "expected %d completed calls, got %d results / %d dispatches" % (len(exp), len(ops), len(entries))
